@@ -237,13 +237,30 @@ func genSetResultRace(t *rapid.T, w *World, pre *Snapshot, n int) []Op {
 		perm := rapid.Permutation(tasks).Draw(t, "perm")
 		op = Op{N: 1000, Kind: "sequence", Refs: []Ref{g.ref(perm[0]), g.ref(perm[1]), g.ref(perm[2])}}
 	}
+	if pct(t, 40, "failing") {
+		// a command that is bound to fail on validation, whatever the others do: it must
+		// contribute nothing - also nothing negative (a "roll back to where I started" that
+		// takes somebody else's commit with it)
+		switch uni(t, 3, "failing.kind") {
+		case 0:
+			op = Op{N: 1000, Kind: "sequence", Refs: []Ref{g.ref(id), g.ref(id)}}
+		case 1:
+			refs := []Ref{g.ref(id)}
+			if len(tasks) >= 2 {
+				refs = append(refs, g.ref(tasks[(uni(t, len(tasks)-1, "other")+1)%len(tasks)]))
+			}
+			op = Op{N: 1000, Kind: "sequence", Refs: append(refs, Lit("ZZZZZ9"))}
+		default:
+			op = Op{N: 1000, Kind: "set", Mode: "json", Target: &r, Agent: "a1", Title: sp(w.UniqueTitle("never")), State: sp("bogus")}
+		}
+	}
 	ops[0] = op
 	return ops
 }
 
 func TestC10Conc(t *testing.T) {
 	runSchedTest(t, schedSpec{prop: "C10", test: "TestC10Conc", genOps: genSetResultRace, minN: 2, maxN: 3, setup: setupProfile,
-		rule: "a generated store, one multi-part command (set with a result attachment plus title and body, or a three-item sequence) and 1-2 other writers, parked / resumed by the controller so that the multi-part command meets a held lock at any of its lock attempts; oracle: linearizability in which a command that exited non-zero - lock busy included - contributed nothing; non-trivial = executions overlap and at least one park landed (or free-running)"})
+		rule: "a generated store, one multi-part command (set with a result attachment plus title and body, or a three-item sequence; in 40 % of the cases a request bound to fail on validation: self dependency, unknown id at the end of a chain, unknown state next to a title) and 1-2 other writers, parked / resumed by the controller so that the multi-part command meets a held lock at any of its lock attempts; oracle: linearizability in which a command that exited non-zero - lock busy included - contributed nothing; non-trivial = executions overlap and at least one park landed (or free-running)"})
 }
 
 // ---- C14: epic references under races and under kills ----
@@ -403,4 +420,25 @@ func TestC18Conc(t *testing.T) {
 	runSchedTest(t, schedSpec{prop: "C18", test: "TestC18Conc", minN: 2, maxN: 3, setup: setupProfile, holderInit: true, mutex: true,
 		kinds: map[string]int{"new_task": 24, "set": 20, "plan": 14, "compact": 14, "claim": 8, "sequence": 8, "prune_yes": 8, "new_epic": 4},
 		rule:  "a generated store and 2-3 concurrent mutating commands (plan and compact - the whole-file rewrites - weighted up) plus an `init` bystander; in four of five controlled cases one command is stopped inside its lock section, `init` runs to completion, then the others run, then the holder goes on; oracle: linearizability of the acknowledged commands (nothing acknowledged is lost, init changes no item) and nobody changes the log while the stopped holder has the flock; non-trivial = executions overlap and at least one park landed (or free-running)"})
+}
+
+// TestC20Faults: results survive rewrites that hit I/O errors. Stores rich in results; the
+// command is a compact, a plan (both rewrite the whole log) or a set attaching one more.
+func TestC20Faults(t *testing.T) {
+	withResults := Profile{Name: "results-setup", Weights: map[string]int{"new_task": 34, "set": 44, "new_epic": 8, "sequence": 8, "claim": 4}, Results: 55, EpicPct: 30, StatePct: 25}
+	faultSetupProfile = &withResults
+	runFaultErrTest(t, "C20", "TestC20Faults", func(rt *rapid.T, w *World, pre *Snapshot) Op {
+		switch uni(rt, 10, "c20f.kind") {
+		case 0, 1, 2, 3, 4:
+			return Op{Kind: "compact"}
+		case 5, 6, 7:
+			return Op{Kind: "plan", Plan: genRichPlan(rt, w)}
+		}
+		g := refGen{rt, w, pre}
+		op := Op{Kind: "set", Mode: "json", Agent: "a1"}
+		r := g.pick("task", 0, "c20f.target")
+		op.Target = &r
+		genResult(rt, g, &op)
+		return op
+	})
 }
